@@ -140,6 +140,10 @@ func c11NormCond(e ast.Expr) ast.Expr {
 type c11NormOpts struct {
 	mergeIfs bool            // `if a { if b { X } }` -> `if a && b { X }`
 	keep     map[string]bool // functions that are translated as calls, never inlined
+	// deferOK: the translation of the caller ignores deferred calls altogether (taskManager.executor: the
+	// recovery of a panic and the hand-over of the finished task are C13's / C03's subject), so a helper
+	// that defers - also a closure - may be inlined, its defer statements kept as they are
+	deferOK bool
 }
 
 func c11HasBranch(n ast.Node, toks ...token.Token) bool {
@@ -581,6 +585,10 @@ func (in *c11Inliner) instantiate(call *ast.CallExpr) (*ast.FuncDecl, map[string
 	bad := ""
 	ast.Inspect(fn.Body, func(n ast.Node) bool {
 		switch x := n.(type) {
+		case *ast.DeferStmt:
+			if in.norm.deferOK {
+				return false // (not looked into)
+			}
 		case *ast.GoStmt:
 			bad = "starts a goroutine"
 		case *ast.FuncLit:
@@ -761,7 +769,7 @@ func (in *c11Inliner) expand(s ast.Stmt, next ast.Stmt, onlyStmt bool) (out []as
 		return !hasDefer
 	})
 	// a deferred call runs when the helper returns: the same moment only if the call is all the caller does
-	if hasDefer && !(tail && onlyStmt) {
+	if hasDefer && !(tail && onlyStmt) && !in.norm.deferOK {
 		return nil, false, false, fmt.Errorf("helper %s defers a call: not inlined", name)
 	}
 	// by-value parameters that the helper assigns must be handed back to the same variable
@@ -812,13 +820,38 @@ func (in *c11Inliner) expand(s ast.Stmt, next ast.Stmt, onlyStmt bool) (out []as
 		return true
 	}
 	// success return with values: assignments to the caller's variables, then exit — rewritten first
+	tailCall := false
+	inLoop := 0
 	var rewrite func(l []ast.Stmt) []ast.Stmt
 	rewrite = func(l []ast.Stmt) []ast.Stmt {
 		var o []ast.Stmt
 		for _, st := range l {
 			switch x := st.(type) {
 			case *ast.ReturnStmt:
+				// return f(…) handing on several results: x… = f(…), then the end of the block; whether that
+				// was a failure is what the caller's own test of the error decides (kept)
+				if call, isCall := func() (*ast.CallExpr, bool) {
+					if len(x.Results) != 1 || len(results) < 2 {
+						return nil, false
+					}
+					c, ok := x.Results[0].(*ast.CallExpr)
+					return c, ok
+				}(); isCall {
+					if inLoop > 0 {
+						clsErr = fmt.Errorf("helper %s returns from inside a loop", name)
+					}
+					tok := token.ASSIGN
+					if define {
+						tok = token.DEFINE
+					}
+					o = append(o, &ast.AssignStmt{Lhs: lhs, Tok: tok, Rhs: []ast.Expr{call}}, &ast.ReturnStmt{})
+					tailCall = true
+					continue
+				}
 				if isSuccess(st) {
+					if inLoop > 0 {
+						clsErr = fmt.Errorf("helper %s returns from inside a loop", name)
+					}
 					n := len(x.Results)
 					if errLast {
 						n--
@@ -855,7 +888,21 @@ func (in *c11Inliner) expand(s ast.Stmt, next ast.Stmt, onlyStmt bool) (out []as
 			case *ast.BlockStmt:
 				o = append(o, &ast.BlockStmt{List: rewrite(x.List)})
 				continue
-			case *ast.ForStmt, *ast.RangeStmt, *ast.SwitchStmt, *ast.TypeSwitchStmt, *ast.SelectStmt:
+			case *ast.RangeStmt:
+				// a failure return inside a loop leaves the caller altogether (it becomes the caller's F);
+				// a success return from inside a loop would have to leave the loop only: not translated
+				inLoop++
+				b := rewrite(x.Body.List)
+				inLoop--
+				o = append(o, &ast.RangeStmt{Key: x.Key, Value: x.Value, Tok: x.Tok, X: x.X, Body: &ast.BlockStmt{List: b}})
+				continue
+			case *ast.ForStmt:
+				inLoop++
+				b := rewrite(x.Body.List)
+				inLoop--
+				o = append(o, &ast.ForStmt{Init: x.Init, Cond: x.Cond, Post: x.Post, Body: &ast.BlockStmt{List: b}})
+				continue
+			case *ast.SwitchStmt, *ast.TypeSwitchStmt, *ast.SelectStmt:
 				if c11ContainsExit(st, func(s ast.Stmt) bool { _, ok := s.(*ast.ReturnStmt); return ok }) {
 					clsErr = fmt.Errorf("helper %s returns from inside a %T", name, st)
 				}
@@ -878,6 +925,15 @@ func (in *c11Inliner) expand(s ast.Stmt, next ast.Stmt, onlyStmt bool) (out []as
 	}
 	if err != nil {
 		return nil, false, false, fmt.Errorf("helper %s: %v", name, err)
+	}
+	if tailCall && haveFail {
+		// the caller's test of the error still has work to do
+		if skipNext {
+			skipNext = false
+		} else {
+			body = append(body, &ast.IfStmt{Cond: &ast.BinaryExpr{X: lhs[len(lhs)-1], Op: token.NEQ, Y: ast.NewIdent("nil")},
+				Body: &ast.BlockStmt{List: failBody}})
+		}
 	}
 	in.inlined[name]++
 	in.depth++
